@@ -13,13 +13,17 @@ From Verif Require Import Base.LockOrder Base.LockOrderProofs Calcium.Locks Calc
      holds (pod keys < workload keys < node-operation keys, bytewise inside a
      class), releases only held keys and ends holding nothing   [k_ordered]
    - releases in LIFO order                                       [k_nested]
+     (exception: the multi-id workload helper called directly, whose releases after
+      a failing attempt follow Go map order - an oracle of the model; still ordered)
    - uses only the three key classes                              [known_class]
    - attempts a node-operation key only while holding nothing and attempts
      nothing while holding one                                    [nodeop_alone]
      (the multi-node node-operation helper, never called by an operation with
       more than one node, is the stated exception). *)
 Theorem C20_order : forall s o fls flr t, In t (op_threads s o fls flr) ->
-  k_ordered t = true /\ k_nested t = true /\ known_class t = true /\
+  k_ordered t = true /\
+  (match o with OHelperWorkloads _ _ _ => True | _ => k_nested t = true end) /\
+  known_class t = true /\
   (match o with OHelperNodes _ true => True | _ => nodeop_alone t = true end).
 Proof. exact op_threads_ok. Qed.
 Print Assumptions C20_order.
@@ -61,7 +65,7 @@ Print Assumptions C20_lock_order_generic.
 (* the boolean check evaluated on the implementation's recorded lock calls
    accepts every thread of the model *)
 Theorem C20_ok_sound_on_model : forall s o fls flr t,
-  match o with OHelperNodes _ true => False | _ => True end ->
+  match o with OHelperNodes _ true => False | OHelperWorkloads _ _ _ => False | _ => True end ->
   In t (op_threads s o fls flr) -> thread_ok t = true.
 Proof. exact op_thread_ok_bool. Qed.
 Print Assumptions C20_ok_sound_on_model.
